@@ -104,7 +104,7 @@ PROPS = {
             dict(run=B + "VerifC13Retry", quick=dict(val9=0, borders=1, iterfaults=8), thorough=dict(val9=0, borders=2, iterfaults=12),
                  covers=["partitioned", "iterator-fault", "done"]),
         ],
-        bounds=dict(quick="2-write histories on 1 key, 2 partitions with the border at Encode(name, rev) for any 64-bit rev (index record, inside versions, beyond), pieces reported in any order; unlimited list, count, streamed range at every readable revision; retry: 3 keys (one updated), 1 border, one transient iterator fault at any of the first 8 iterator steps of an unlimited list / count / streamed range at the latest revision",
+        bounds=dict(quick="2-write histories on 1 key, 2 partitions with the border at Encode(name, rev) for any 64-bit rev (index record, inside versions, beyond), pieces reported in any order; unlimited list, count, streamed range at every readable revision over the whole prefix or an interval that starts or ends exactly on a stored key; retry: 3 keys (one updated), 1 border, one transient iterator fault at any of the first 8 steps of the scan of any piece of an unlimited list / count / streamed range at the latest revision",
                     thorough="2 keys, up to 3 partitions; the retry harness with 2 borders and a fault at any of the first 12 iterator steps"),
         outside="borders that are not well-formed internal keys; a retry after a batch of the failed attempt was already sent (batches hold 300 keys); more than one engine fault per read",
     ),
